@@ -26,7 +26,7 @@ def netns(cmd):
 
 def verify(seed_dir):
     tag, k = seed_dir.rstrip("/").split("/")[-2:]
-    prop = tag.lstrip("UV")  # later-round seeds live under /tmp/seed/UCxx, /tmp/seed/VCxx
+    prop = tag.lstrip("UVX")  # later-round seeds live under /tmp/seed/UCxx, /tmp/seed/VCxx
     sid = "%s-%s" % (tag, k)
     wt = "/tmp/seedwt/" + sid
     res = {"id": sid, "property": prop}
@@ -118,7 +118,7 @@ def verify(seed_dir):
 
 def main():
     os.makedirs("/tmp/seedwt", exist_ok=True)
-    dirs = sorted(d for d in glob.glob("/tmp/seed/C*/[0-9]") + glob.glob("/tmp/seed/UC*/[0-9]") + glob.glob("/tmp/seed/VC*/[0-9]") if os.path.exists(os.path.join(d, "patch.diff")))
+    dirs = sorted(d for d in glob.glob("/tmp/seed/C*/[0-9]") + glob.glob("/tmp/seed/UC*/[0-9]") + glob.glob("/tmp/seed/VC*/[0-9]") + glob.glob("/tmp/seed/XC*/[0-9]") if os.path.exists(os.path.join(d, "patch.diff")))
     if len(sys.argv) > 1:
         dirs = [d for d in dirs if any(a in d for a in sys.argv[1:])]
     with ThreadPoolExecutor(max_workers=5) as ex:
